@@ -1,6 +1,7 @@
 package main
 
 import (
+	"context"
 	"sync/atomic"
 	"errors"
 	"fmt"
@@ -13,6 +14,7 @@ import (
 
 	lifecycle "github.com/boz/go-lifecycle"
 	"github.com/boz/kcache"
+	"github.com/boz/kcache/client"
 	"github.com/boz/kcache/filter"
 	pkgerrors "github.com/pkg/errors"
 	metav1 "k8s.io/apimachinery/pkg/apis/meta/v1"
@@ -143,6 +145,9 @@ func runRelist(c *Ctx, r *relistRun) {
 					srv.DupNext(s.K)
 				case 13:
 					srv.ReplayLast(s.K)
+				case 15:
+					// graceful deletion begins: the object gets a deletionTimestamp and stays
+					srv.MarkTerminating(s.NS, s.NM)
 				case 14:
 					// a burst the slow controller cannot keep up with
 					slow.Store(true)
@@ -244,6 +249,8 @@ func randomPhase(c *Ctx, mode string) []wstep {
 			steps = append(steps, wstep{0, 1 + c.Rng.Intn(2), 1 + c.Rng.Intn(3), c.Rng.Intn(3), 0})
 		case x < 7:
 			steps = append(steps, wstep{1, 1 + c.Rng.Intn(2), 1 + c.Rng.Intn(3), 0, 0})
+		case x == 7 && j%2 == 0:
+			steps = append(steps, wstep{Kind: 15, NS: 1 + c.Rng.Intn(2), NM: 1 + c.Rng.Intn(3)})
 		case x == 7:
 			steps = append(steps, wstep{Kind: 8, K: c.Rng.Intn(3000)})
 		default:
@@ -342,7 +349,73 @@ func runC03(c *Ctx) {
 		}
 		c.Stat("stale_buffer_runs", 1)
 	}
-	c.Rep.Rule = "whole controller against the fake API server in a synctest bubble (virtual time): seeded random server histories over 2 namespaces x 3 names in three phases; refresh periods {2s,7s}; list latency {0, 1/2, 3/2} period; controller filters {none, Labels, Not(NSName)}; watch behaviour {healthy, never connects, connect hangs until cancelled, closes after every 2 events, drops events, duplicates events, status/bookmark frames, mixed, replays old history (also on a quiet server, where the next list carries an unchanged resourceVersion), bursts of 220-320 changes against a slow controller (the session's and the watcher's buffers overflow and events are lost), lists that carry no collection resourceVersion}; 4 levels of logger-driven schedule perturbation. With the watch out of action: after every completed list cache = that list's accepted objects. After each phase: once a list that started after the server quiesced completes, cache = server's accepted objects, subscriber mirror = cache with well-formed strictly-newer events, no event before Ready, Close returns. Plus a targeted scenario: a watch event that the next list contradicts sits in the watcher's buffer while the controller is busy (slow filter) and the stream stalls; after that list cache = list. The converged cache is compared with the extracted model's relist_outcome. Non-trivial = run with >= 3 lists."
+	// two builders configured side by side before either controller is created:
+	// each controller lists and watches ITS server at ITS refresh period
+	for i := 0; i < 2; i++ {
+		var problems []string
+		what := "two builders configured side by side, then both controllers created"
+		c.Now(what)
+		dl := sched.Bubble(c.T, func() {
+			srvA, srvB := fakeapi.New(), fakeapi.New()
+			srvA.Set(1, 1, labSets[1], 1)
+			srvA.Set(1, 2, labSets[0], 1)
+			srvB.Set(2, 1, labSets[2], 1)
+			pert := sched.NewPerturb(c.Seed+int64(i), i)
+			ctx, cancel := context.WithCancel(context.Background())
+			defer cancel()
+			bA := kcache.NewBuilder().Context(ctx).Log(pert.Log())
+			bB := kcache.NewBuilder().Context(ctx).Log(pert.Log())
+			bA.Lister().RefreshPeriod(2 * time.Second)
+			bA = bA.Client(client.NewClient(srvA.List, srvA.Watch))
+			bB = bB.Client(client.NewClient(srvB.List, srvB.Watch))
+			if i == 1 {
+				bB.Lister().RefreshPeriod(1000000 * time.Second)
+			}
+			cA, errA := bA.Create()
+			cB, errB := bB.Create()
+			if errA != nil || errB != nil {
+				problems = append(problems, fmt.Sprintf("Create failed: %v %v", errA, errB))
+				return
+			}
+			defer func() {
+				pert.SetLevel(0)
+				cA.Close()
+				cB.Close()
+				sched.Settle()
+			}()
+			time.Sleep(9 * time.Second)
+			pert.Barrier()
+			gotA, _ := cacheIDs(cA.Cache())
+			gotB, _ := cacheIDs(cB.Cache())
+			if want := objIDs(srvA.Objects()); !sameInts(gotA, want) {
+				problems = append(problems, fmt.Sprintf("the first controller's cache holds %v, its server %v", gotA, want))
+			}
+			if want := objIDs(srvB.Objects()); !sameInts(gotB, want) {
+				problems = append(problems, fmt.Sprintf("the second controller's cache holds %v, its server %v", gotB, want))
+			}
+			la, _ := srvA.Calls()
+			lb, _ := srvB.Calls()
+			// 9 s: period 2 s gives 4 or 5 lists; the default period (one minute) and 10^6 s give one
+			if len(la) < 4 || len(la) > 6 {
+				problems = append(problems, fmt.Sprintf("the controller built with a 2 s refresh period listed %d times in 9 s", len(la)))
+			}
+			if len(lb) != 1 {
+				problems = append(problems, fmt.Sprintf("the controller built with the default / a very long refresh period listed %d times in 9 s", len(lb)))
+			}
+		})
+		runs++
+		c.Rep.Evaluations++
+		replay := map[string]interface{}{"scenario": what, "variant": i}
+		if dl != "" {
+			replay["deadlock"] = dl
+			c.Violation("", "hang (bubble deadlock): "+what, replay)
+		}
+		for _, p := range problems {
+			c.Violation("", p+" ["+what+"]", replay)
+		}
+		c.DistinctCase(fmt.Sprint("two-builders", i))
+	}
+	c.Rep.Rule = "whole controller against the fake API server in a synctest bubble (virtual time): seeded random server histories over 2 namespaces x 3 names in three phases (creates, label changes, deletes, objects entering graceful deletion: a deletionTimestamp, still listed); refresh periods {2s,7s}; list latency {0, 1/2, 3/2} period; controller filters {none, Labels, Not(NSName)}; watch behaviour {healthy, never connects, connect hangs until cancelled, closes after every 2 events, drops events, duplicates events, status/bookmark frames, mixed, replays old history (also on a quiet server, where the next list carries an unchanged resourceVersion), bursts of 220-320 changes against a slow controller (the session's and the watcher's buffers overflow and events are lost), lists that carry no collection resourceVersion}; 4 levels of logger-driven schedule perturbation. With the watch out of action: after every completed list cache = that list's accepted objects. After each phase: once a list that started after the server quiesced completes, cache = server's accepted objects, subscriber mirror = cache with well-formed strictly-newer events, no event before Ready, Close returns. Plus a targeted scenario: a watch event that the next list contradicts sits in the watcher's buffer while the controller is busy (slow filter) and the stream stalls; after that list cache = list. Plus two builders configured side by side before either controller is created: each controller follows its own server at its own refresh period. The converged cache is compared with the extracted model's relist_outcome. Non-trivial = run with >= 3 lists."
 	c.Rep.Stats["runs"] = runs
 }
 
